@@ -277,6 +277,8 @@ def handle (j : Json) : Except String Json := do
   | "normalize" => NormDrv.handle op j
   | "denormalize" => NormDrv.handle op j
   | "denorm_rows" => NormDrv.handle op j
+  | "completions" => NormDrv.handle op j
+  | "lookup_dc" => NormDrv.handle op j
   | "synth_encode" => SynthDrv.handle op j
   | "synth_decode" => SynthDrv.handle op j
   | "synth_circuit" => SynthDrv.handle op j
